@@ -280,6 +280,9 @@ func (e *Engine) VerifyFunc(pkgPath, key string, modular bool) (rep *FuncReport,
 	defer func() {
 		if r := recover(); r != nil {
 			err = fmt.Errorf("%s.%s: %v", pkgPath, key, r)
+			if os.Getenv("VERIF_TRACE") != "" {
+				fmt.Fprintf(os.Stderr, "%v\n%s\n", r, debug.Stack())
+			}
 		}
 	}()
 	e.bind()
@@ -297,12 +300,14 @@ func (e *Engine) VerifyFunc(pkgPath, key string, modular bool) (rep *FuncReport,
 	fs := sp.Funcs[key]
 	decl := e.funcs[fn]
 	var outerObjs []types.Object
+	var closureLit *ast.FuncLit
+	var closureOuter *ast.FuncDecl
 	if fs.Closure {
 		// the contract speaks about the function literal that fn returns: its body is verified as a function of its own
 		// parameters; the parameters of fn are its free variables
 		var lit *ast.FuncLit
 		ast.Inspect(decl.Body, func(n ast.Node) bool {
-			if r, ok := n.(*ast.ReturnStmt); ok && len(r.Results) == 1 {
+			if r, ok := n.(*ast.ReturnStmt); ok && len(r.Results) >= 1 {
 				if l, ok := r.Results[0].(*ast.FuncLit); ok && lit == nil {
 					lit = l
 				}
@@ -313,6 +318,7 @@ func (e *Engine) VerifyFunc(pkgPath, key string, modular bool) (rep *FuncReport,
 			return nil, fmt.Errorf("%s.%s: no returned function literal (contract out of date)", pkgPath, key)
 		}
 		_, outerObjs = paramNames(decl, pkg.TypesInfo)
+		closureLit, closureOuter = lit, decl
 		decl = &ast.FuncDecl{Name: decl.Name, Type: lit.Type, Body: lit.Body}
 	}
 	if fs.Trusted {
@@ -374,6 +380,9 @@ func (e *Engine) VerifyFunc(pkgPath, key string, modular bool) (rep *FuncReport,
 	v.pre = v.envAt(st, names, args)
 	v.reqs = append(v.reqs, sx.App(">=", sx.Atom("notifs0"), sx.Int(0)), sx.App(">=", sx.Atom("xcalls0"), sx.Int(0)))
 	for _, c := range fs.Clauses {
+		if fs.Closure {
+			break // the requires clauses of a closure are its state invariant: read below, once the captured variables are bound
+		}
 		if c.Kind == "requires" && propertyScoped(c.Tags) {
 			v.scoped = append(v.scoped, scopedReq{tags: c.Tags, t: v.pre.Tr(c.E).T})
 			continue
@@ -432,6 +441,52 @@ func (e *Engine) VerifyFunc(pkgPath, key string, modular bool) (rep *FuncReport,
 		c := sx.Atom("p_" + o.Name())
 		e.consts = append(e.consts, smt.Var{Name: c.A, Sort: ty.Sort()})
 		st.vars[o] = Val{TV: spec.TV{T: c, Ty: ty}}
+		names = append(names, o.Name()) // contracts of the closure name the outer parameters too
+		args = append(args, st.vars[o])
+	}
+	var capObjs []types.Object
+	if closureLit != nil {
+		// the local variables of the outer function that the literal captures are its state between calls: unconstrained
+		// values of their types on entry (contracts name them like parameters, cur(x) is the value at the exit); a local
+		// bound once to a function literal is that literal
+		for _, c := range e.capturedLocals(pkg, closureOuter, closureLit) {
+			if c.lit != nil {
+				u := unit()
+				u.Fn = c.lit
+				st.vars[c.obj] = u
+				continue
+			}
+			ty := spec.Type{K: spec.KAny}
+			func() {
+				defer func() { recover() }()
+				ty = e.typeOf(c.obj.Type())
+			}()
+			if ty.K == spec.KUnit {
+				st.vars[c.obj] = unit()
+				continue
+			}
+			cn := sx.Atom("p_" + c.obj.Name())
+			e.consts = append(e.consts, smt.Var{Name: cn.A, Sort: ty.Sort()})
+			if b, ok := c.obj.Type().Underlying().(*types.Basic); ok && ty.K == spec.KInt {
+				if lo, hi, ok := intRange(b.Kind()); ok { // a variable of a fixed-width integer type holds a value of that type
+					v.reqs = append(v.reqs, sx.App("<=", sx.IntS(lo), cn), sx.App("<=", cn, sx.IntS(hi)))
+				}
+			}
+			val := Val{TV: spec.TV{T: cn, Ty: ty}}
+			st.vars[c.obj] = val
+			names = append(names, c.obj.Name())
+			args = append(args, val)
+			capObjs = append(capObjs, c.obj)
+		}
+		v.names, v.args = names, args
+		v.pre = v.envAt(st, names, args)
+		// requires clauses of a closure: an invariant of the state it keeps between calls - assumed on entry, re-established
+		// at every exit (#closure-keep) and established by the outer function where it returns the literal (#closure-init)
+		for _, c := range fs.Clauses {
+			if c.Kind == "requires" {
+				v.reqs = append(v.reqs, v.pre.Tr(c.E).T)
+			}
+		}
 	}
 	var normal []Exit
 	fr.onRet = func(st *State, rets []Val) { normal = append(normal, Exit{St: st, Rets: rets}) }
@@ -471,6 +526,11 @@ func (e *Engine) VerifyFunc(pkgPath, key string, modular bool) (rep *FuncReport,
 				if val, ok := ex.St.vars[o]; ok && val.T != nil && val.Iter == nil {
 					env.Vars["$cur."+names[i]] = val.TV
 				}
+			}
+		}
+		for _, o := range capObjs { // captured state of a closure at the exit
+			if val, ok := ex.St.vars[o]; ok && val.T != nil && val.Iter == nil {
+				env.Vars["$cur."+o.Name()] = val.TV
 			}
 		}
 		env.Old = v.pre
@@ -517,8 +577,39 @@ func (e *Engine) VerifyFunc(pkgPath, key string, modular bool) (rep *FuncReport,
 				v.curTags = nil
 			}
 		}
+		if closureLit != nil {
+			// the state invariant holds again for the values the captured variables have at this exit
+			exitArgs := append([]Val{}, args...)
+			for i, n := range names {
+				for _, o := range capObjs {
+					if o.Name() == n {
+						if val, ok := ex.St.vars[o]; ok && val.T != nil {
+							exitArgs[i] = val
+						}
+					}
+				}
+			}
+			envExit := v.envAt(ex.St, names, exitArgs)
+			for _, c := range fs.Clauses {
+				if c.Kind != "requires" {
+					continue
+				}
+				for _, g := range smt.SplitGoal(envExit.Tr(c.E).T) {
+					v.add(fmt.Sprintf("%s#closure-keep%d", base, c.Ord), c.Tags, "kept by every call: "+c.Text, v.query(ex.St, nil, g))
+				}
+			}
+		}
 		// canary: false must not be provable
 		v.add(base+"#canary", nil, "false (must fail)", v.query(ex.St, nil, sx.Bool(false)))
+	}
+	if closureLit != nil {
+		hasReq := false
+		for _, c := range fs.Clauses {
+			hasReq = hasReq || c.Kind == "requires"
+		}
+		if hasReq {
+			v.order = append(v.order, e.closureInit(v, fn, pkg, closureOuter, closureLit, fs, base, outerObjs)...)
+		}
 	}
 	if len(normal) == 0 {
 		v.add(base+"#canary", nil, "false (must fail)", v.query(st, nil, sx.Bool(true)))
@@ -574,6 +665,8 @@ func (e *Engine) applyContract(fr *frame, st *State, fn *types.Func, decl *ast.F
 		e.Applied[p.Types.Name()+"."+specKey(fn)] = true
 	}
 	v := fr.ver
+	curOverride := e.curOverride
+	e.curOverride = nil
 	calleeSp := e.Specs[fn.Pkg().Path()]
 	names, _ := paramNames(decl, e.fpkg[fn].TypesInfo)
 	cv := &verifier{e: e, sp: calleeSp, pkg: e.fpkg[fn]}
@@ -597,7 +690,16 @@ func (e *Engine) applyContract(fr *frame, st *State, fn *types.Func, decl *ast.F
 		if e.mayWrite(fn, 0) {
 			st.store = e.sym("st", "Store")
 		}
-		if e.mayLog(fn, 0) { // the ghost logs are framed by the call graph: a callee that cannot log leaves them alone
+		if names, known := e.logNames(fn); e.Go64 && known {
+			// dialect go64: the callee can append only to the per-callee logs its call graph reaches; the others are framed
+			for _, n := range names {
+				delete(st.xm, n)
+				if st.xgenOf == nil {
+					st.xgenOf = map[string]int{}
+				}
+				st.xgenOf[n] = e.nextGen()
+			}
+		} else if e.mayLog(fn, 0) { // the ghost logs are framed by the call graph: a callee that cannot log leaves them alone
 			st.notifs = spec.LogVal{Base: e.sym("notifs", "Int").A}
 			st.xcalls = spec.LogVal{Base: e.sym("xcalls", "Int").A}
 			st.facts = append(st.facts, sx.App(">=", sx.Atom(st.notifs.Base), sx.Int(0)), sx.App(">=", sx.Atom(st.xcalls.Base), sx.Int(0)))
@@ -643,6 +745,11 @@ func (e *Engine) applyContract(fr *frame, st *State, fn *types.Func, decl *ast.F
 			if rets[0].Ty.K == spec.KNB { // the same for a byte-string result (asbytes(cres(...)) names it)
 				st.facts = append(st.facts, sx.App("=", e.uf("unbox_NB", spec.Type{K: spec.KNB}, Val{TV: spec.TV{T: boxed, Ty: spec.Type{K: spec.KAny}}}).T, rets[0].T))
 			}
+		}
+		if len(rets) > 1 && rets[1].T != nil { // the second result (usually the error) is cres2("<Func>", i)
+			fnName := "cres2_" + strings.NewReplacer(".", "_", "-", "_").Replace(name)
+			e.extraFn["cres:"+fnName] = fmt.Sprintf("(declare-fun %s (Int) Any)", fnName)
+			st.facts = append(st.facts, sx.App("=", sx.App(fnName, (&pos).LenT()), e.box(rets[1], spec.Type{K: spec.KAny})))
 		}
 	}
 	// postconditions: facts, except equations on the ghost logs, which assign the log
@@ -721,6 +828,9 @@ func (e *Engine) applyContract(fr *frame, st *State, fn *types.Func, decl *ast.F
 			if i < len(rets) {
 				post.Vars[n] = rets[i].TV
 			}
+		}
+		for n, tv := range curOverride {
+			post.Vars[n] = tv
 		}
 		post.Old = pre
 		return post
@@ -1165,4 +1275,203 @@ func (e *Engine) EvalClause(pkgPath, key, clauseText string, params map[string]s
 	goal := postEnv.Tr(clause.E).T
 	decls, quants := e.Prelude(sp)
 	return &smt.Query{Name: "replay-eval", Decls: decls, Quants: quants, Hyps: hyps, Goal: goal}, nil
+}
+
+
+type capturedLocal struct {
+	obj types.Object
+	lit *ast.FuncLit
+}
+
+// capturedLocals lists, in declaration order, the local variables of outer (declared outside lit) that lit uses. A variable
+// that is defined once by `x := func...` and never assigned again comes with that literal.
+func (e *Engine) capturedLocals(pkg *packages.Package, outer *ast.FuncDecl, lit *ast.FuncLit) []capturedLocal {
+	info := pkg.TypesInfo
+	used := map[types.Object]bool{}
+	ast.Inspect(lit, func(n ast.Node) bool {
+		if id, ok := n.(*ast.Ident); ok {
+			if o, ok := info.Uses[id].(*types.Var); ok && !o.IsField() {
+				used[o] = true
+			}
+		}
+		return true
+	})
+	var out []capturedLocal
+	seen := map[types.Object]bool{}
+	lits := map[types.Object]*ast.FuncLit{}
+	assigns := map[types.Object]int{}
+	ast.Inspect(outer.Body, func(n ast.Node) bool {
+		if as, ok := n.(*ast.AssignStmt); ok {
+			for i, l := range as.Lhs {
+				id, ok := l.(*ast.Ident)
+				if !ok {
+					continue
+				}
+				o := info.Defs[id]
+				if o == nil {
+					o = info.Uses[id]
+				}
+				if o == nil {
+					continue
+				}
+				assigns[o]++
+				if len(as.Lhs) == len(as.Rhs) {
+					if fl, ok := as.Rhs[i].(*ast.FuncLit); ok && as.Tok == token.DEFINE {
+						lits[o] = fl
+					}
+				}
+			}
+		}
+		return true
+	})
+	ast.Inspect(outer.Body, func(n ast.Node) bool {
+		if n == ast.Node(lit) {
+			return false
+		}
+		id, ok := n.(*ast.Ident)
+		if !ok {
+			return true
+		}
+		o, ok := info.Defs[id].(*types.Var)
+		if !ok || o.IsField() || !used[o] || seen[o] {
+			return true
+		}
+		seen[o] = true
+		c := capturedLocal{obj: o}
+		if fl := lits[o]; fl != nil && assigns[o] == 1 {
+			c.lit = fl
+		}
+		out = append(out, c)
+		return true
+	})
+	return out
+}
+
+
+// logNames (dialect go64) lists the per-callee ghost logs a function can append to, by its call graph: library calls are
+// logged under <package>.<Type>.<Func>, calls of function-typed variables under the variable's name, functions under a
+// `logged` contract under their own name. known is false if the call graph cannot be followed (then every log is havocked).
+func (e *Engine) logNames(fn *types.Func) (names []string, known bool) {
+	set := map[string]bool{}
+	seen := map[*types.Func]bool{}
+	ok := true
+	var walk func(f *types.Func, depth int)
+	walk = func(f *types.Func, depth int) {
+		if seen[f] || !ok {
+			return
+		}
+		seen[f] = true
+		if depth > 20 || f.Pkg() == nil {
+			ok = false
+			return
+		}
+		if fs := e.specOf(f); fs != nil {
+			if fs.Logged && depth > 0 { // (the event of the call being replaced is appended by applyContract itself)
+				set[specKey(f)] = true
+			}
+			if fs.Trusted && fs.Pure {
+				return
+			}
+		}
+		decl := e.funcs[f]
+		if decl == nil {
+			set[f.Pkg().Name()+"."+specKey(f)] = true
+			return
+		}
+		info := e.fpkg[f].TypesInfo
+		ast.Inspect(decl.Body, func(x ast.Node) bool {
+			c, isCall := x.(*ast.CallExpr)
+			if !isCall {
+				return ok
+			}
+			if tv, isT := info.Types[c.Fun]; isT && tv.IsType() {
+				return ok
+			}
+			switch o := calleeOf(info, c).(type) {
+			case *types.Func:
+				if o == fn && depth >= 0 {
+					if fs := e.specOf(fn); fs != nil && fs.Logged {
+						set[specKey(fn)] = true // recursion
+					}
+				}
+				walk(o, depth+1)
+			case *types.Var:
+				set[o.Name()] = true
+			case *types.Builtin, nil:
+				if o == nil {
+					if _, lit := c.Fun.(*ast.FuncLit); !lit {
+						ok = false // a call the call graph cannot name
+					}
+				}
+			}
+			return ok
+		})
+	}
+	walk(fn, 0)
+	if !ok {
+		return nil, false
+	}
+	for n := range set {
+		names = append(names, n)
+	}
+	sort.Strings(names)
+	return names, true
+}
+
+
+// closureInit runs the outer function up to the point where it returns the literal and generates the obligations that the
+// closure's state invariant (its requires clauses) holds there, for the values the captured variables have at that point.
+func (e *Engine) closureInit(v *verifier, fn *types.Func, pkg *packages.Package, outer *ast.FuncDecl, lit *ast.FuncLit, fs *spec.FuncSpec, base string, outerObjs []types.Object) []string {
+	v2 := &verifier{e: e, sp: v.sp, modular: v.modular, obls: v.obls, pkg: pkg, reveal: v.reveal, values: v.values}
+	st := &State{vars: map[types.Object]Val{}, store: sx.Atom("store0"), notifs: spec.LogVal{Base: "notifs0"}, xcalls: spec.LogVal{Base: "xcalls0"}}
+	var names []string
+	var args []Val
+	for _, o := range outerObjs {
+		if o == nil {
+			continue
+		}
+		ty := e.typeOf(o.Type())
+		if ty.K == spec.KUnit {
+			st.vars[o] = unit()
+			continue
+		}
+		st.vars[o] = Val{TV: spec.TV{T: sx.Atom("p_" + o.Name()), Ty: ty}} // the same symbols as in the closure's own run
+		names = append(names, o.Name())
+		args = append(args, st.vars[o])
+	}
+	v2.names, v2.args = names, args
+	v2.pre = v2.envAt(st, names, args)
+	v2.reqs = append(v2.reqs, sx.App(">=", sx.Atom("notifs0"), sx.Int(0)), sx.App(">=", sx.Atom("xcalls0"), sx.Int(0)))
+	captured := e.capturedLocals(pkg, outer, lit)
+	var exits []Exit
+	fr := &frame{fn: fn, pkg: pkg, info: pkg.TypesInfo, exits: &exits, ver: v2}
+	n := 0
+	fr.onRet = func(st *State, rets []Val) {
+		if len(rets) == 0 || rets[0].Fn != lit {
+			return
+		}
+		n++
+		nm := append([]string{}, names...)
+		ag := append([]Val{}, args...)
+		for _, c := range captured {
+			if val, ok := st.vars[c.obj]; ok && val.T != nil && c.lit == nil {
+				nm = append(nm, c.obj.Name())
+				ag = append(ag, val)
+			}
+		}
+		env := v2.envAt(st, nm, ag)
+		for _, c := range fs.Clauses {
+			if c.Kind != "requires" {
+				continue
+			}
+			for _, g := range smt.SplitGoal(env.Tr(c.E).T) {
+				v2.add(fmt.Sprintf("%s#closure-init%d", base, c.Ord), c.Tags, "established where the literal is returned: "+c.Text, v2.query(st, nil, g))
+			}
+		}
+	}
+	e.stmts(fr, st, outer.Body.List, func(st *State) {})
+	if n == 0 {
+		panic("the outer function never returns the literal on a path the executor follows")
+	}
+	return v2.order
 }
